@@ -382,6 +382,112 @@ pub fn thread_cpu_seconds() -> f64 {
     ts.tv_sec as f64 + ts.tv_nsec as f64 * 1e-9
 }
 
+// ------------------------------------------------------------------------------------------
+// hang watchdog (C08): an evaluation that never returns cannot be judged by the thread that
+// runs it. Evaluations register themselves; a watchdog thread reads the CPU clock of every
+// registered thread once a second. An evaluation that has consumed more than HANG_CPU_SECONDS
+// of CPU time on its own (not wall-clock time: load does not count) is reported as a violation
+// with the input as the replay file, and the process ends with exit code 1.
+// ------------------------------------------------------------------------------------------
+
+pub const HANG_CPU_SECONDS: f64 = 90.0;
+
+struct Watched {
+    id: String,
+    sub: String,
+    case: J,
+    what: String,
+    thread: libc::pthread_t,
+    cpu_at_start: f64,
+}
+
+fn watch_table() -> &'static Mutex<(u64, BTreeMap<u64, Watched>)> {
+    static T: std::sync::OnceLock<Mutex<(u64, BTreeMap<u64, Watched>)>> = std::sync::OnceLock::new();
+    T.get_or_init(|| {
+        std::thread::Builder::new()
+            .name("hang-watchdog".into())
+            .spawn(watchdog_loop)
+            .expect("watchdog thread");
+        Mutex::new((0, BTreeMap::new()))
+    })
+}
+
+fn cpu_seconds_of(thread: libc::pthread_t) -> Option<f64> {
+    let mut clock: libc::clockid_t = 0;
+    // SAFETY: plain libc calls on a thread handle that is alive while it is registered
+    unsafe {
+        if libc::pthread_getcpuclockid(thread, &mut clock) != 0 {
+            return None;
+        }
+        let mut ts = libc::timespec { tv_sec: 0, tv_nsec: 0 };
+        if libc::clock_gettime(clock, &mut ts) != 0 {
+            return None;
+        }
+        Some(ts.tv_sec as f64 + ts.tv_nsec as f64 * 1e-9)
+    }
+}
+
+fn watchdog_loop() {
+    loop {
+        std::thread::sleep(std::time::Duration::from_millis(1000));
+        let hung: Option<(String, String, J, String, f64)> = {
+            let t = watch_table().lock().unwrap();
+            t.1.values().find_map(|w| {
+                let used = cpu_seconds_of(w.thread)? - w.cpu_at_start;
+                (used > HANG_CPU_SECONDS).then(|| (w.id.clone(), w.sub.clone(), w.case.clone(), w.what.clone(), used))
+            })
+        };
+        if let Some((id, sub, case, what, used)) = hung {
+            let Some(cfg) = CURRENT_CFG.get().cloned() else {
+                // `nbv replay <file>`: no evidence to write, the file being replayed is the reproduction
+                println!("  failing case: {what} has used {used:.0} s of CPU time without finishing (limit {HANG_CPU_SECONDS} s)");
+                println!("  signature: hang");
+                println!("VIOLATION property={id} replay=(the file being replayed)");
+                std::process::exit(1);
+            };
+            let mut report = Report::new(
+                &cfg,
+                "run aborted by the hang watchdog: one evaluation consumed more CPU time than allowed without returning; counts of the interrupted run are not available",
+            );
+            report.violations.push(Violation {
+                sub,
+                case,
+                failure: Failure::new("hang", format!("{what} has used {used:.0} s of CPU time without finishing (limit {HANG_CPU_SECONDS} s)")),
+            });
+            let code = finish(report, vec![]);
+            std::process::exit(code);
+        }
+    }
+}
+
+pub static CURRENT_CFG: std::sync::OnceLock<Cfg> = std::sync::OnceLock::new();
+
+/// Registers the evaluation that the calling thread is about to run; returns a token for
+/// `watch_end`.
+pub fn watch_begin(id: &str, sub: &str, case: J, what: String) -> u64 {
+    let mut t = watch_table().lock().unwrap();
+    t.0 += 1;
+    let token = t.0;
+    // SAFETY: pthread_self has no preconditions
+    let thread = unsafe { libc::pthread_self() };
+    t.1.insert(
+        token,
+        Watched {
+            id: id.to_string(),
+            sub: sub.to_string(),
+            case,
+            what,
+            thread,
+            cpu_at_start: thread_cpu_seconds(),
+        },
+    );
+    token
+}
+
+pub fn watch_end(token: u64) {
+    watch_table().lock().unwrap().1.remove(&token);
+}
+
 pub fn install_panic_hook() {
     std::panic::set_hook(Box::new(|info| {
         let loc = info
